@@ -230,7 +230,7 @@ def create_sink(net, junction, mdot_kg_per_s, scaling=1., name=None, index=None,
     :param in_service: True for in service, False for out of service
     :type in_service: bool, default True
     :param type: Type variable to classify the sink
-    :type type: str, default None
+    :type type: str, default "sink"
     :param kwargs: Additional keyword arguments will be added as further columns to the\
             net["sink"] table
     :return: index - The unique ID of the created element
@@ -273,7 +273,7 @@ def create_source(net, junction, mdot_kg_per_s, scaling=1., name=None, index=Non
     :param in_service: True for in service, False for out of service
     :type in_service: bool, default True
     :param type: Type variable to classify the source
-    :type type: str, default None
+    :type type: str, default "source"
     :param kwargs: Additional keyword arguments will be added as further columns to the\
             net["source"] table
     :return: index - The unique ID of the created element
@@ -309,7 +309,7 @@ def create_mass_storage(net, junction, mdot_kg_per_s, init_m_stored_kg=0, min_m_
                           if fluid flows from storage to net: < 0)
     :type mdot_kg_per_s: float, default None
     :param init_m_stored_kg: The initially stored mass in the storage
-    :type init_m_stored_kg: float, default None
+    :type init_m_stored_kg: float, default 0
     :param min_m_stored_kg: Minimum amount of fluid that has to remain in the storage unit. (To be
                    used with controllers)
     :type min_m_stored_kg: float
@@ -669,7 +669,7 @@ def create_valve(net, junction, element, et, inner_diameter_mm, opened=True, los
             highest already existing index is selected.
     :type index: int, default None
     :param type: An identifier for special types of valves
-    :type type: str, default None
+    :type type: str, default "valve"
     :param kwargs: Additional keyword arguments will be added as further columns to the\
             net["valve"] table
     :return: index - The unique ID of the created element
@@ -1310,7 +1310,7 @@ def create_sinks(net, junctions, mdot_kg_per_s, scaling=1., name=None, index=Non
     :param in_service: True for in service, False for out of service
     :type in_service: Iterable or bool, default True
     :param type: Type variables to classify the sinks
-    :type type: Iterable or str, default None
+    :type type: Iterable or str, default "sink"
     :param kwargs: Additional keyword arguments will be added as further columns to the\
             net["sink"] table
     :return: index - The unique IDs of the created elements
@@ -1355,7 +1355,7 @@ def create_sources(net, junctions, mdot_kg_per_s, scaling=1., name=None, index=N
     :param in_service: True for in service, False for out of service
     :type in_service: Iterable or bool, default True
     :param type: Type variable to classify the sources
-    :type type: Iterable or str, default None
+    :type type: Iterable or str, default "source"
     :param kwargs: Additional keyword arguments will be added as further columns to the\
             net["source"] table
     :return: index - The unique IDs of the created elements
@@ -1558,7 +1558,7 @@ def create_pipes_from_parameters(net, from_junctions, to_junctions, length_km,
     :type outer_diameter_mm: Iterable or float, default None
     :param k_mm: Pipe roughness in [mm]. 0.2 mm is quite rough, usually betweeen 0.0015 (new
             pipes) and 0.3 (old steel pipelines)
-    :type k_mm: Iterable or float, default 0.2 mm
+    :type k_mm: Iterable or float, default 0.2
     :param loss_coefficient: Additional pressure loss coefficients, introduced by e.g. bends
     :type loss_coefficient: Iterable or float, default 0
     :param sections: The number of internal pipe sections. Important for gas and temperature\
@@ -1893,7 +1893,7 @@ def create_heat_exchangers(net, from_junctions, to_junctions, qext_w, inner_diam
             service
     :type in_service: Iterable(bool) or bool, default True
     :param type: Not used yet
-    :type type: Iterable(str) or str, default "heat exchanger"
+    :type type: Iterable(str) or str, default "heat_exchanger"
     :param kwargs: Additional keyword arguments will be added as further columns to the\
                     net["heat_exchanger"] table
     :return: index - The unique IDs of the created heat exchangers
